@@ -3,7 +3,8 @@
 Exhaustive over all filler strings over the reduced alphabet {L,O,B,J,other} without the signature, up to length 7
 (quick) / 9 (thorough), at every inter-object position, with the stream also split into two containers at every byte
 offset (fillers up to length 3 / 4), and over unknown type codes {0, reserved, 132.., 2^16.., 2^31.., 2^32-1} x declared
-sizes {0,1,15,16..20,32,33,48,4096} x position x (content containing the signature bytes or not) x split offset.
+sizes {0,1,15,16..44,48,4096} x declared header size/version {16/1, 32/1, and for three type codes (thorough: all)
+40/2, 0/0, 17/1, ffff/ffff} x position x (content containing the signature bytes or not) x split offset.
 The real File::uncompressedFile2ReadWriteQueue() is driven on a File whose in-memory stream the harness filled;
 a sample runs as complete File sessions under the scheduler."""
 import time
@@ -27,7 +28,7 @@ def main(argv):
     exe = driver.harness("h_resync", "sched-asan")
     n = 16
     jobs = [(exe, ["mode=filler", "maxlen=%d" % (8 if quick else 9), "splitlen=%d" % (3 if quick else 4), "shard=%d/%d" % (i, n)]) for i in range(n)]
-    jobs += [(exe, ["mode=unknown", "shard=%d/%d" % (i, n)]) for i in range(n)]
+    jobs += [(exe, ["mode=unknown", "allhk=%d" % (0 if quick else 1), "shard=%d/%d" % (i, n)]) for i in range(n)]
     jobs += [(exe, ["mode=session", "maxlen=%d" % (3 if quick else 4), "shard=%d/4" % i]) for i in range(4)]
     res = enumcheck.run_jobs(jobs, timeout=1500)
     viol, infra, ev, di, samples = enumcheck.collect("C09", res, "h_resync", "sched-asan", accept_props={"C09"})
